@@ -19,5 +19,5 @@ os.makedirs("/tmp/devunit", exist_ok=True)
 fn = "/tmp/devunit/%s.rs" % spec["name"]
 open(fn, "w").write(out)
 print("generated", fn, len(out.splitlines()), "lines")
-r = subprocess.run(["verus", fn, "--multiple-errors", "8", "--rlimit", str(spec.get("rlimit", 10)), "--num-threads", "8"] + extra, cwd="/tmp/devunit")
+r = subprocess.run(["verus", fn, "--multiple-errors", str(spec.get("multiple_errors", 8)), "--rlimit", str(spec.get("rlimit", 10)), "--num-threads", "8"] + extra, cwd="/tmp/devunit", timeout=1500)
 sys.exit(r.returncode)
